@@ -62,6 +62,7 @@ type Outcome struct {
 	Skipped     string         `json:"skipped,omitempty"`
 	F2Retries   int            `json:"f2_retries"`
 	V           *verdict       `json:"verdict,omitempty"`
+	TieV        *verdict       `json:"tie_verdict,omitempty"` // model/implementation disagreement (the S oracle goes on)
 	Stats       map[string]int `json:"stats"`
 	Class       string         `json:"class"`     // what the tamper amounted to
 	ErrClass    string         `json:"err_class"` // error class Read reported
@@ -174,7 +175,7 @@ func handle(jobJSON []byte, driverBin string) []byte {
 	c := j.Case
 	for attempt := 0; ; attempt++ {
 		o.Stats = map[string]int{}
-		o.V, o.Skipped = nil, ""
+		o.V, o.TieV, o.Skipped = nil, nil, ""
 		workerRunner.runCase(c, &o)
 		if o.Skipped != "F2" || j.Origin != "generated" || attempt >= 5 {
 			break
@@ -512,8 +513,11 @@ func (x *runner) runCase(c Case, o *Outcome) {
 		return
 	}
 	if sig, desc := model.Compare(c.Dir, rd, blocked); sig != "" {
-		o.V = &verdict{"tie-" + sig, fmt.Sprintf("%s after %s: %s", dn, c.T.Op, desc)}
-		return
+		// keep going: the S oracle below may exhibit a concrete property failure
+		o.TieV = &verdict{"tie-" + sig, fmt.Sprintf("%s after %s: %s", dn, c.T.Op, desc)}
+		if c.Persist == 0 {
+			c.Persist = 2
+		}
 	}
 	o.TieOK += model.Points()
 	// a caller that keeps reading after the error must still never get anything but a prefix,
@@ -727,7 +731,10 @@ func (a *agg) record(o Outcome) {
 		}
 	}
 	r.Sample(5, map[string]interface{}{"case": c.Name, "tamper": c.T, "class": o.Class, "err": o.ErrClass, "stats": o.Stats})
-	if v := o.V; v != nil {
+	for _, v := range []*verdict{o.V, o.TieV} {
+		if v == nil {
+			continue
+		}
 		kind := "impl-oracle"
 		if len(v.Sig) > 4 && v.Sig[:4] == "tie-" {
 			kind = "correspondence"
@@ -956,7 +963,7 @@ func main() {
 	}
 	// (4) random tampers: all operators, IAT modes, both victims, warm-up traffic
 	{
-		n := r.Scale(5000, 60000)
+		n := r.Scale(5000, 40000)
 		cs := make([]Case, n)
 		for i := range cs {
 			cs[i] = genRandom(rng.Fork(), i)
